@@ -234,7 +234,9 @@ func (a c17Answer) stable() bool {
 
 // a whole sequential history on a fresh table: all results, then the stability flag of every answered query
 func c17RunHistory(hist string, sorted bool) string {
-	srv := nbtns.NewNetBIOSNameServer(true)
+	// the constructor's flag has no say in what the table answers: half of the histories (fixed by the history) run on
+	// a table built with the other value
+	srv := nbtns.NewNetBIOSNameServer(!c13Used([]string{"secured", hist}))
 	ops := c17ParseOps(hist)
 	toks := make([]string, len(ops))
 	var answered []c17Answer
